@@ -13,21 +13,30 @@ import Driver.OpsApi
 import Driver.OpsGridFS
 import Driver.OpsSpec
 import Driver.OpsConc
+import Driver.OpsSeq
 open Lean
 namespace Driver
 
 def allOps : List (String × Op) :=
   opsCompare ++ opsMatch ++ opsApply ++ opsCodec ++ opsProject ++ opsFS ++ opsGridFS ++ opsSpec ++ Conc.opsConc
 
-def handle (st : DState) (line : String) : DState × Json :=
+/-- the driver state: the model system(s) of `api.*`/`sess.*` and the Spec state of `seq.*` -/
+structure MState where
+  d : DState := {}
+  q : Seq.SeqState := {}
+
+def handle (st : MState) (line : String) : MState × Json :=
   match Json.parse line with
   | .error e => (st, Json.mkObj [("bad", s!"parse: {e}")])
   | .ok j =>
     match j.getObjVal? "op" with
     | .ok (.str name) =>
       match statefulOps.lookup name with
-      | some op => op st j
+      | some op => let (d', r) := op st.d j; ({ st with d := d' }, r)
       | none =>
+        match Seq.statefulOpsSeq.lookup name with
+        | some op => let (q', r) := op st.q j; ({ st with q := q' }, r)
+        | none =>
         match allOps.lookup name with
         | some op => match op j with
           | .ok r => (st, r)
@@ -35,7 +44,7 @@ def handle (st : DState) (line : String) : DState × Json :=
         | none => (st, Json.mkObj [("bad", s!"unknown op {name}")])
     | _ => (st, Json.mkObj [("bad", "missing op")])
 
-partial def loop (hin hout : IO.FS.Stream) (st : DState) : IO Unit := do
+partial def loop (hin hout : IO.FS.Stream) (st : MState) : IO Unit := do
   let line ← hin.getLine
   if line.isEmpty then return ()
   let l := line.trimAscii.toString
